@@ -183,6 +183,26 @@ def run(m, rep, tier):
     e4 = rep.rule('E4', 'cstl_hash_clear re-establishes every constant cstl_hash_init sets; array freed once before at = NULL', floor=4)
     check_clear_restores(m, e4)
 
+    # clear walks the table as it is: nothing of the table (a pending geometry least of all) is reset before the walk
+    pf = mod.fn('cstl_hash_clear')
+    if pf is not None and not pf.decl:
+        walks = [c for c in pf.all_insts() if c.op == 'call' and c.callee and (c.callee in roles.names('walkers') or set(roles.names('walkers')) & reach(g, c.callee))]
+        early = []
+        for s2 in pf.all_insts():
+            if s2.op == 'store' and fld(pf, s2) is not None:
+                for c in walks:
+                    before = (s2.block is c.block and s2.pos < c.pos) or (s2.block is not c.block and c.block in pf.reachable_from(s2.block))
+                    if before:
+                        early.append((s2, c))
+        if not walks:
+            e4.ok('cstl_hash_clear:order', 'NOT DECIDED: no call of the bucket walk found in cstl_hash_clear itself')
+        elif early:
+            s2, c = early[0]
+            e4.violation('cstl_hash_clear:order', 'the table field %s is reset at %s before the elements are walked at %s: what the walk covers (the pending '
+                         'geometry while a rehash is in progress) is decided by the fields as they were' % (fld(pf, s2), s2.loc(), c.loc()), floc(m, pf), {})
+        else:
+            e4.ok('cstl_hash_clear:order', 'every reset of a table field comes after the walk', floc(m, pf))
+
     # ---- E5 --------------------------------------------------------------------------
     e5 = rep.rule('E5', 'after a non-zero visit result no further visit happens and that value is returned', floor=2)
     for e in ('cstl_hash_foreach', 'cstl_hash_foreach_const'):
@@ -200,6 +220,28 @@ def run(m, rep, tier):
     for w in roles.walkers:
         check_walk_exits(m, w, e7)
 
+    # ---- E8: the caller's function gets the element, not the node -------------------------------
+    e8 = rep.rule('E8', 'the caller\'s visit / clear function is handed the element (node address minus the table\'s offset), in every enumerating entry point', floor=2)
+    for e in ENTRIES:
+        f = m.ifn(e)
+        if f is None:
+            e8.undecided(e, 'not in the inlined model')
+            continue
+        ucalls = [c for c in f.all_insts() if c.op == 'call' and c.callee is None and c.x.get('cv') == '$1' and c.o]
+        if not ucalls:
+            e8.ok(e, 'NOT DECIDED: no call through the caller\'s function pointer resolved in the inlined body', floc(m, f))
+            continue
+        bad = []
+        for c in ucalls:
+            k = _element_kind(f, c.o[0])
+            if k == 'node':
+                bad.append('the caller\'s function is handed a chain node itself at %s, not the element that contains it (node - offset): an adapter between '
+                           'the internal walk and the caller\'s function was not adapted' % c.loc())
+        if bad:
+            e8.violation(e, '; '.join(sorted(set(bad))[:2]), floc(m, f), {})
+        else:
+            e8.ok(e, '%d call(s) through the caller\'s pointer, each with node - offset' % len(ucalls), floc(m, f))
+
     # ---- E6 --------------------------------------------------------------------------
     # (C03's L5 instance) an element can only be enumerated if the bucket it lives in is swept when the table
     # shrinks: buckets added by a resize must be emptied and stamped from the *current* count on
@@ -212,6 +254,37 @@ def run(m, rep, tier):
         e6.undecided('cstl_hash_resize', 'not found')
     else:
         c03.check_resize_order(m, f, e6)
+
+
+def _element_kind(f, v, depth=0, seen=None):
+    """'element' when v is computed from a pointer by subtracting / adding a loaded offset, 'node' when it is a chain link
+    value (a load of bucket.n / node.next, or a merge of such) used as it is, None otherwise"""
+    seen = seen if seen is not None else set()
+    i = f.get(v) if isinstance(v, str) else None
+    if i is None or depth > 16:
+        return None
+    if i.op in ('bitcast', 'inttoptr', 'ptrtoint'):
+        return _element_kind(f, i.o[0], depth + 1, seen)
+    if i.op in ('sub', 'add'):
+        return 'element'
+    if i.op == 'getelementptr':
+        return 'element' if any('idx' in p_ for p_ in i.x.get('path', [])) else _element_kind(f, i.o[0], depth + 1, seen)
+    if i.op == 'load':
+        a = resolve_addr(f, i.o[0])
+        if a.fsteps[-1:] in ((('cstl_hash_bucket', 'n'),), (('cstl_hash_node', 'next'),)):
+            return 'node'
+        return None
+    if i.op in ('phi', 'select'):
+        if i.ref in seen:
+            return 'again'
+        seen.add(i.ref)
+        ks = {_element_kind(f, o, depth + 1, seen) for o in (i.o if i.op == 'phi' else i.o[1:]) if o != 'null' and const_int(o) != 0 and o != 'undef'}
+        ks.discard('again')
+        if ks == {'node'}:
+            return 'node'
+        if ks == {'element'}:
+            return 'element'
+    return None
 
 
 def check_walk_exits(m, f, rule):
